@@ -219,4 +219,105 @@ theorem effectiveBorder_spec (preset : Option Rat) (w : Rat) :
   refine ⟨?_, rfl, fun p => rfl⟩
   cases preset <;> rfl
 
+/-! ## the used width as one closed formula (the reference of the harness's `clause_shrink`, for all inputs) -/
+
+/-- CSS 2.1 §10.4 on a tentative width `t`: `max-width` first, `min-width` last (so the minimum wins). -/
+def cssClamp (t minW : Rat) (maxW : Ext) : Rat :=
+  let t' := match maxW with
+    | .fin m => if t > m then m else t
+    | _ => t
+  if t' < minW then minW else t'
+
+/-- The wrapper around a function that fills an `auto` width with `t` and keeps a specified one, **is**
+the CSS formula applied to the width `t` of the first pass: one closed expression for every input (`max-width ≠ -inf`). -/
+theorem minmax_fill_formula (f : ABox → Except BErr ABox) (t : Rat) (b : ABox)
+    (hfill : f b = .ok { b with w := some t })
+    (hkeep : ∀ x : ABox, x.w ≠ none → f x = .ok x) (hmax : b.maxW ≠ .ninf) :
+    handleMinMaxWidth f b = .ok { b with w := some (cssClamp t b.minW b.maxW) } := by
+  unfold handleMinMaxWidth
+  simp only [bind, Except.bind, hfill, widthOf]
+  cases hm : b.maxW with
+  | ninf => exact absurd hm hmax
+  | inf =>
+    simp only [Ext.ltRat, Bool.false_eq_true, if_false, pure, Except.pure, cssClamp]
+    by_cases h2 : t < b.minW
+    · simp only [if_pos h2]
+      rw [hkeep _ (by simp)]
+    · simp [if_neg h2]
+  | nan =>
+    simp only [Ext.ltRat, Bool.false_eq_true, if_false, pure, Except.pure, cssClamp]
+    by_cases h2 : t < b.minW
+    · simp only [if_pos h2]
+      rw [hkeep _ (by simp)]
+    · simp [if_neg h2]
+  | fin m =>
+    simp only [Ext.ltRat, decide_eq_true_eq, cssClamp]
+    by_cases h1 : t > m
+    · simp only [if_pos h1, extAsLen]
+      rw [hkeep _ (by simp)]
+      simp only [pure, Except.pure]
+      by_cases h2 : m < b.minW
+      · simp only [if_pos h2]
+        rw [hkeep _ (by simp)]
+      · simp [if_neg h2]
+    · simp only [if_neg h1, pure, Except.pure]
+      by_cases h2 : t < b.minW
+      · simp only [if_pos h2]
+        rw [hkeep _ (by simp)]
+      · simp [if_neg h2]
+
+/-- The tentative width of a float / inline-block (CSS 2.1 §10.3.5, §10.3.9): the specified one, or the
+shrink-to-fit width for the available width (containing block minus the box's own margins, borders, paddings). -/
+def tentativeWidth (cbw minC maxC : Rat) (b : ABox) : Rat :=
+  match b.w with
+  | some w => w
+  | none => shrinkToFit minC maxC
+      (cbw - (orZero b.ml + orZero b.mr + b.pl + b.pr + b.bl + b.br))
+
+/-- (b)(c) **The used width of a float is the CSS formula, for every input** — what the harness's reference
+`clause_shrink` computes for the rendered boxes, now a theorem of the model: auto margins are 0, the width is
+`cssClamp` of the tentative width (`max-width` first, `min-width` last), everything else is untouched. -/
+theorem float_width_css (cbw minC maxC : Rat) (b : ABox) (hmax : b.maxW ≠ .ninf) :
+    floatLayoutWidth cbw minC maxC b =
+      .ok { zeroAutoMargins b with w := some (cssClamp (tentativeWidth cbw minC maxC b) b.minW b.maxW) } := by
+  unfold floatLayoutWidth
+  have hkeep : ∀ x : ABox, x.w ≠ none → floatWidthCore cbw minC maxC x = .ok x := by
+    intro x hx
+    unfold floatWidthCore
+    cases hw : x.w with
+    | none => exact absurd hw hx
+    | some v => rfl
+  have hfill : floatWidthCore cbw minC maxC (zeroAutoMargins b) =
+      .ok { zeroAutoMargins b with w := some (tentativeWidth cbw minC maxC b) } := by
+    rcases b with ⟨ml, mr, pl, pr, bl, br, w, minW, maxW, posX, col⟩
+    cases w <;> simp [floatWidthCore, zeroAutoMargins, tentativeWidth]
+  exact minmax_fill_formula _ _ (zeroAutoMargins b) hfill hkeep hmax
+
+/-- The same for inline-blocks. -/
+theorem inline_block_width_css (cbw minC maxC : Rat) (b : ABox) (hmax : b.maxW ≠ .ninf) :
+    inlineBlockLayoutWidth cbw minC maxC b =
+      .ok { zeroAutoMargins b with w := some (cssClamp (tentativeWidth cbw minC maxC b) b.minW b.maxW) } := by
+  rw [← float_eq_inline_block]
+  exact float_width_css cbw minC maxC b hmax
+
+/-- `cssClamp` is the clause: at least `min-width`, at most `max-width` when that is not below `min-width`, and the
+tentative width itself when it lies between them. -/
+theorem cssClamp_spec (t minW : Rat) (maxW : Ext) :
+    minW ≤ cssClamp t minW maxW ∧ (∀ m, maxW = .fin m → minW ≤ m → cssClamp t minW maxW ≤ m) ∧
+    (minW ≤ t → (∀ m, maxW = .fin m → t ≤ m) → cssClamp t minW maxW = t) := by
+  unfold cssClamp
+  cases maxW <;> simp <;> grind
+
+/-- `float: left; padding: 0 10px; width: auto`. -/
+def exPadded : ABox :=
+  { ml := some 0, mr := some 0, pl := 10, pr := 10, bl := 0, br := 0, w := none, minW := 0, maxW := .inf, posX := 0,
+    isColumn := false }
+
+/-- Non-vacuity: `float:left; padding:0 10px` around a long text in 100px: 80; `width:80px; max-width:50px`: 50;
+`min-width:60px; max-width:50px`: the minimum wins, 60. -/
+example :
+    tentativeWidth 100 30 230 exPadded = 80 ∧
+    cssClamp 80 0 (.fin 50) = 50 ∧ cssClamp 80 60 (.fin 50) = 60 ∧ cssClamp 80 0 .inf = 80 := by
+  decide +kernel
+
 end Wp.C05Shrink
